@@ -37,4 +37,13 @@ run R8/patch_3.diff C09 C06
 run R9/patch_1.diff C16
 run R9/patch_2.diff C16
 run R9/patch_3.diff C11
+run R10/patch_1.diff C03
+run R10/patch_2.diff C03 C07
+run R10/patch_3.diff C04 C20
+run R11/patch_1.diff C01 C09
+run R11/patch_2.diff C17 C12
+run R11/patch_3.diff C09
+run R12/patch_1.diff C02
+run R12/patch_2.diff C10 C02
+run R12/patch_3.diff C09
 git -C /repo worktree remove --force "$WT"
